@@ -39,7 +39,7 @@ func verifMarkExprs() []string {
 		"l[*]", "l[*].x", "o[*].x", "o.*.x", "[a, b][*]", "{x = a}[*].x",
 		"!a", "!(a && b)", "(a || b) && c", "a ? (b || c) : (b && c)",
 		"[for v in l : v]", "{for k, v in o : k => v}", "[for v in l : v if a]",
-		"l[0]", "o.x", "o[\"x\"]", "u.x", "u[\"x\"]", "ul[0]", "%{ for x in ul }${x}%{ endfor }", "a%{ for x in ul }${x}%{ endfor }b", "%{ for x in l }${x.x}%{ endfor }", "[for x in dy : x]", "{for k, x in dy : k => x}", "[for x in ul : x]", "{for k, x in l : k => x.x}", "[for x in l : x.x if a]", "\"p${us}\"", "\"${us}${a}\"", "us == \"k\"", "\"${a}\"", "\"x${a}y${b}\"", "%{ if a }yes%{ else }no%{ endif }",
+		"l[0]", "o.x", "o[\"x\"]", "u.x", "u[\"x\"]", "ul[0]", "%{ for x in ul }${x}%{ endfor }", "a%{ for x in ul }${x}%{ endfor }b", "%{ for x in l }${x.x}%{ endfor }", "{(us) = 1}", "{\"${us}\" = a}", "{a = 1, (us) = 2}", "[for x in dy : x]", "{for k, x in dy : k => x}", "[for x in ul : x]", "{for k, x in l : k => x.x}", "[for x in l : x.x if a]", "\"p${us}\"", "\"${us}${a}\"", "us == \"k\"", "\"${a}\"", "\"x${a}y${b}\"", "%{ if a }yes%{ else }no%{ endif }",
 	)
 	return out
 }
